@@ -374,6 +374,10 @@ func parsePossibilityArchs(input *input, possi *Possibility) error {
 /* */
 func parsePossibilityArch(input *input, possi *Possibility) error {
 	eatWhitespace(input)
+	if input.Peek() == ']' {
+		/* whitespace before the closing bracket, not another name */
+		return nil
+	}
 	arch := ""
 
 	// Exclamation marks may be prepended to each of the names. (It is not
@@ -396,7 +400,7 @@ func parsePossibilityArch(input *input, possi *Possibility) error {
 			return errors.New("Oh no. Reached EOF before Arch list finished")
 		case '!':
 			return errors.New("You can only negate whole blocks :(")
-		case ']', ' ': /* Let our parent deal with both of these */
+		case ']', ' ', '\t', '\n', '\r': /* Let our parent deal with these */
 			archObj, err := ParseArch(arch)
 			if err != nil {
 				return err
@@ -443,6 +447,10 @@ func parsePossibilityStageSet(input *input, possi *Possibility) error {
 /* */
 func parsePossibilityStage(input *input, stageSet *StageSet) error {
 	eatWhitespace(input)
+	if input.Peek() == '>' {
+		/* whitespace before the closing bracket, not another name */
+		return nil
+	}
 
 	stage := Stage{}
 	for {
@@ -456,7 +464,7 @@ func parsePossibilityStage(input *input, stageSet *StageSet) error {
 				return errors.New("Double-negation (!!) of a single Stage is not permitted :(")
 			}
 			stage.Not = !stage.Not
-		case '>', ' ': /* Let our parent deal with both of these */
+		case '>', ' ', '\t', '\n', '\r': /* Let our parent deal with these */
 			stageSet.Stages = append(stageSet.Stages, stage)
 			return nil
 		}
